@@ -65,9 +65,9 @@ func init() {
 		MinDistinct: 100,
 		Plan: func(tier string) []core.Suite {
 			if tier == "thorough" {
-				return []core.Suite{{Name: "enum", N: len(c06Enum(tier)), Exhaustive: true}, {Name: "rand", N: 400000}, {Name: "tall", N: 120, CaseTimeout: 900}}
+				return []core.Suite{{Name: "enum", N: len(c06Enum(tier)), Exhaustive: true}, {Name: "rand", N: 400000}, {Name: "tall", N: 120, CaseTimeout: 900}, {Name: "bigundo", N: 60, CaseTimeout: 900}}
 			}
-			return []core.Suite{{Name: "enum", N: len(c06Enum(tier)), Exhaustive: true}, {Name: "rand", N: 10000}, {Name: "tall", N: 4, CaseTimeout: 900}}
+			return []core.Suite{{Name: "enum", N: len(c06Enum(tier)), Exhaustive: true}, {Name: "rand", N: 10000}, {Name: "tall", N: 4, CaseTimeout: 900}, {Name: "bigundo", N: 6, CaseTimeout: 900}}
 		},
 		Run: func(c *core.Ctx) {
 			var s fScenario
@@ -75,6 +75,29 @@ func init() {
 			switch c.Suite {
 			case "enum":
 				s = c06Enum(c.Tier)[c.Index]
+			case "bigundo":
+				// undo of a block that deleted a whole aligned sub-tree of 256 or 512 leaves from a
+				// forest of 512 to ~1500 leaves, so that Undo has to move a sub-tree 8 or 9 rows tall
+				// back down (added after seeded change C06i, an 8-bit level counter)
+				n0 := []int{512, 1024, 768, 1100, 1536, 600}[c.Index%6]
+				width := 256
+				if n0 >= 1024 && c.Index%2 == 1 {
+					width = 512
+				}
+				first := width * c.Rng.Intn(n0/width)
+				b0 := gen.Block{Adds: n0, Remember: make([]bool, n0)}
+				for i := range b0.Remember {
+					b0.Remember[i] = true
+				}
+				var dels []int
+				for sl := first; sl < first+width; sl++ {
+					dels = append(dels, sl)
+				}
+				c.Rng.Shuffle(len(dels), func(i, j int) { dels[i], dels[j] = dels[j], dels[i] })
+				b1 := gen.Block{Dels: dels, Adds: c.Rng.Intn(3)}
+				b2 := gen.Block{Adds: 1 + c.Rng.Intn(4)}
+				s = fScenario{Tag: tag | 1<<61, Cfgs: []InstCfg{{Kind: "pollard"}, {"mapfull", 0}, {"mapfull", 63}, {"mappartial", 63}}, FromRootsAt: -1,
+					Ops: []fOp{{Kind: "block", Block: &b0}, {Kind: "block", Block: &b1}, {Kind: "undo", K: 1}, {Kind: "block", Block: &b2}, {Kind: "undo", K: 1}}}
 			case "tall":
 				p := gen.Tall
 				p.MaxLeaves = 2000
